@@ -400,6 +400,59 @@ func c18CheckDataURI(reg c18Reg, uri []byte, totalityOnly bool) (bad string, non
 	return "", nontrivial, false
 }
 
+// c18ViaCSS: the same data URI inside a style sheet's url(), in both quote styles: what a CSS consumer reads out of
+// the minified sheet must decode to what the helper returns for the URI alone.
+func c18ViaCSS(m *minify.M, uri []byte) (bad string, applicable bool) {
+	in, ok := rfc2397Decode(uri)
+	if !ok || !in.validEnc {
+		return "", false
+	}
+	for _, c := range uri {
+		if c <= ' ' || c >= 0x7f || c == '"' || c == '\'' || c == '\\' || c == '(' || c == ')' {
+			return "", false // would need CSS escapes of its own
+		}
+	}
+	direct := minify.DataURI(m, append([]byte{}, uri...))
+	dd, ok := rfc2397Decode(direct)
+	if !ok {
+		return "", false
+	}
+	for _, q := range []string{`"`, `'`} {
+		sheet := "a{background:url(" + q + string(uri) + q + ")}"
+		out, err := m.Bytes("text/css", []byte(sheet))
+		if err != nil {
+			return fmt.Sprintf("style sheet %q fails: %v", core.Trunc(sheet, 200), err), true
+		}
+		toks, terr := cssTokens(string(out))
+		got, found := "", false
+		if terr == "" {
+			for i, t := range toks {
+				if t.K == 'u' {
+					got, found = t.S, true
+					break
+				}
+				if t.K == 'f' && strings.EqualFold(t.S, "url") {
+					for _, a := range append(append([]cTok{}, t.Args...), toks[i+1:]...) {
+						if a.K == 's' {
+							got, found = a.S, true
+							break
+						}
+					}
+					break
+				}
+			}
+		}
+		if !found {
+			return fmt.Sprintf("url(%s...%s) in a style sheet: the minified sheet %q has no readable url()", q, q, core.Trunc(string(out), 200)), true
+		}
+		gd, ok := rfc2397Decode([]byte(got))
+		if !ok || normMediatype(gd.mediatype) != normMediatype(dd.mediatype) || !bytes.Equal(gd.payload, dd.payload) {
+			return fmt.Sprintf("url(%s...%s) in a style sheet: the minified sheet %q carries %q, the helper alone gives %q", q, q, core.Trunc(string(out), 200), core.Trunc(got, 120), core.Trunc(string(direct), 120)), true
+		}
+	}
+	return "", true
+}
+
 // refMediatype: reference for minify.Mediatype — lower-case and strip whitespace outside quoted strings.
 func refMediatype(b []byte) []byte {
 	var out []byte
@@ -582,6 +635,15 @@ func C18(run *core.Run) {
 			run.Sample(map[string]string{"fn": "DataURI", "registry": g.name, "input": core.Trunc(string(uri), 200)})
 		}
 		doURI(g, uri, "gen")
+		if g.name == "real" || i%5 == 0 {
+			run.Eval()
+			bad, app := c18ViaCSS(regByName["real"].m, uri)
+			if bad != "" {
+				run.Violation(core.Key("DataURI via css url()", uri), bad+" | input "+fmt.Sprintf("%q", core.Trunc(string(uri), 200)), map[string]interface{}{"config": "DataURI via css url()", "input": string(uri)})
+			} else if app {
+				run.Count("via_css_url")
+			}
+		}
 	})
 	nm := run.N(40000, 2000000)
 	core.ParallelFor(nm, 0, func(i int) {
